@@ -5,7 +5,12 @@
 import glob, importlib.util, os
 
 PROPS = {}
-for _p in sorted(glob.glob(os.path.join(os.path.dirname(os.path.abspath(__file__)), 'props.d', 'C*.py'))):
+_dir = os.path.join(os.path.dirname(os.path.abspath(__file__)), 'props.d')
+# only fragments listed in props.d/enabled.txt are live (others may be work in progress)
+_enabled = set(open(os.path.join(_dir, 'enabled.txt')).read().split())
+for _p in sorted(glob.glob(os.path.join(_dir, 'C*.py'))):
+    if os.path.basename(_p)[:-3] not in _enabled:
+        continue
     _spec = importlib.util.spec_from_file_location('propfrag_' + os.path.basename(_p)[:-3], _p)
     _m = importlib.util.module_from_spec(_spec)
     _spec.loader.exec_module(_m)
